@@ -219,11 +219,11 @@ fn run_case(cx: &mut Ctx, c: &Case, seed: u64, emit: bool) -> Option<usize> {
         viol(cx, "streaminfo-md5-wrong", "MD5 is not that of the little-endian sign-extended PCM bytes", c, "");
     }
     // ---- SEEKTABLE clauses
-    let mut starts: Vec<(u64, u64, u16)> = vec![];
+    let mut starts: std::collections::HashSet<(u64, u64, u16)> = Default::default();
     {
         let mut s = 0u64;
         for (i, n) in fsamples.iter().enumerate() {
-            starts.push((s, (bounds[i] - metalen) as u64, *n as u16));
+            starts.insert((s, (bounds[i] - metalen) as u64, *n as u16));
             s += *n as u64;
         }
     }
@@ -425,9 +425,11 @@ fn main() {
         run_case(&mut cx, &c, seed, true);
     }
     // thorough: more frames than a seek table holds (16-sample frames of silence)
-    if thorough {
+    // (release build only: the debug build of the encoder needs minutes per file)
+    if !cfg!(debug_assertions) {
         let frames = 16 * 932_100usize;
-        for &(declare, pad) in &[(false, 16_777_215u32), (true, 0u32), (false, 16_777_209)] {
+        let all = [(false, 16_777_215u32), (true, 0u32), (false, 16_777_209)];
+        for &(declare, pad) in &all[..if thorough { 3 } else { 1 }] {
             let c = Case {
                 kind: Kind::Sample,
                 opt: OptSpec { block_size: Some(16), seek: Some("f:1".into()), padding: Some(Some(pad)), fast: true, ..Default::default() },
